@@ -103,35 +103,114 @@ class C05(object):
             for c in self.exhaustive_shapes(rng):
                 yield c
         for _ in range(n_cases):
-            n = rng.randint(2, 5)
-            d = gen.rand_dist_case(rng, nmin=n, nmax=n, amax=2 if n >= 4 else 3, bases=['linear'], allow_space=False,
-                                   max_support=10)
-            name = rng.choice(MEASURES)
-            groups, crvs = self.rand_shape(rng, n, name)
-            if name == 'caekl_mutual_information' and rng.random() < 0.6:
-                # four or five groups, where the optimal partition may be an intermediate one
-                n = rng.choice([4, 4, 5])
-                d = gen.rand_dist_case(rng, nmin=n, nmax=n, amax=2, bases=['linear'], allow_space=False, max_support=10)
-                if rng.random() < 0.5:
-                    # structured: some variables are functions (xor / copies) of two fair bits
-                    outs = []
-                    fns = [rng.choice(['a', 'b', 'x', 'x', 'c']) for _ in range(n)]
-                    for a in (0, 1):
-                        for b in (0, 1):
-                            outs.append([{'a': a, 'b': b, 'x': a ^ b, 'c': 0}[f] for f in fns])
-                    uniq = []
-                    for o in outs:
-                        if o not in uniq:
-                            uniq.append(o)
-                    d.update({'outs': uniq, 'pmf': [str(Fraction(1, len(uniq)))] * len(uniq),
-                              'alphabets': [[0, 1]] * n, 'klass': 'tuple', 'names': None, 'space': None})
-                groups, crvs = [[i] for i in range(n)], []
-            d['measure'] = name
-            d['groups'] = groups
-            d['crvs'] = crvs
-            d['k'] = rng.choice([rng.randint(1, len(groups)), max(1, len(groups) - 1)]) if name == 'cohesion' else 0
-            d['byname'] = bool(d['names']) and rng.random() < 0.5
-            yield d
+            yield self.rand_case(rng)
+        for c in self.gen_options(rng, tier):
+            yield c
+
+    def rand_case(self, rng):
+        n = rng.randint(2, 5)
+        d = gen.rand_dist_case(rng, nmin=n, nmax=n, amax=2 if n >= 4 else 3, bases=['linear'], allow_space=False,
+                               max_support=10)
+        name = rng.choice(MEASURES)
+        groups, crvs = self.rand_shape(rng, n, name)
+        if name == 'caekl_mutual_information' and rng.random() < 0.6:
+            # four or five groups, where the optimal partition may be an intermediate one
+            n = rng.choice([4, 4, 5])
+            d = gen.rand_dist_case(rng, nmin=n, nmax=n, amax=2, bases=['linear'], allow_space=False, max_support=10)
+            if rng.random() < 0.5:
+                # structured: some variables are functions (xor / copies) of two fair bits
+                outs = []
+                fns = [rng.choice(['a', 'b', 'x', 'x', 'c']) for _ in range(n)]
+                for a in (0, 1):
+                    for b in (0, 1):
+                        outs.append([{'a': a, 'b': b, 'x': a ^ b, 'c': 0}[f] for f in fns])
+                uniq = []
+                for o in outs:
+                    if o not in uniq:
+                        uniq.append(o)
+                d.update({'outs': uniq, 'pmf': [str(Fraction(1, len(uniq)))] * len(uniq),
+                          'alphabets': [[0, 1]] * n, 'klass': 'tuple', 'names': None, 'space': None})
+            groups, crvs = [[i] for i in range(n)], []
+        d['measure'] = name
+        d['groups'] = groups
+        d['crvs'] = crvs
+        d['k'] = rng.choice([rng.randint(1, len(groups)), max(1, len(groups) - 1)]) if name == 'cohesion' else 0
+        d['byname'] = bool(d['names']) and rng.random() < 0.5
+        return d
+
+    # ------------------------------------------------------------------ argument shapes and representations
+    # The stream above always passes rvs, crvs and rv_mode explicitly and keeps the table linear.  The stream below
+    # exercises what `normalize_rvs` does with the arguments left out (rvs=None: every variable its own group, read as
+    # indices; crvs=None: no conditioning; rv_mode=None: the distribution's own mode, names once names are set) and
+    # the same measures on tables kept in a log base (values then come out in base-b units: value * log2(b) bits;
+    # CAEKL has a branch of its own for bases below 1).
+    #
+    # rvs left out together with a non-empty `crvs` given BY NAME (rv_mode 'names' or left out on a named
+    # distribution) used to raise ditException in every measure (normalize_rvs forced rv_mode to indices); repaired in
+    # /repo 1c68f16, generated and judged like every other shape since.
+    OVERLAP_OK = ('coinformation', 'interaction_information', 'entropy', 'cohesion')
+
+    def apply_options(self, rng, d, rvs_default=None, crvs_default=None, implicit=None, base=None, keep_crvs=None):
+        """Turn an explicit linear case into one with defaulted arguments / a log base.  `None` = draw."""
+        name, n = d['measure'], d['n']
+        d['base'] = rng.choice(['linear', 'linear', 2, 'e', 10, 3.5, 0.5, 0.5]) if base is None else base
+        if rvs_default is None:
+            rvs_default = rng.choice([False, False, 'omit', 'none'])
+        if rvs_default:
+            d['groups'] = [[i] for i in range(n)]
+            keep = (rng.random() < 0.5) if keep_crvs is None else keep_crvs
+            if name in self.OVERLAP_OK and keep:
+                # conditioning on variables that are also in the (default) groups: accepted by these measures
+                if not d['crvs']:
+                    d['crvs'] = sorted(rng.sample(range(n), rng.randint(1, min(2, n))))
+            else:
+                d['crvs'] = []
+            if name == 'cohesion':
+                d['k'] = rng.choice([rng.randint(1, n), max(1, n - 1)])
+        d['rvs_default'] = rvs_default
+        if crvs_default is None:
+            crvs_default = rng.choice([False, 'omit', 'none']) if not d['crvs'] else False
+        if crvs_default:
+            d['crvs'] = []
+        d['crvs_default'] = crvs_default
+        # rv_mode left out: names mode when the distribution has names, indices otherwise
+        can_implicit = d['byname'] or not d['names']
+        if implicit is None:
+            implicit = rng.random() < 0.4
+        d['rvmode'] = 'implicit' if (implicit and can_implicit) else 'explicit'
+        return d
+
+    def gen_options(self, rng, tier):
+        # every measure with each argument shape once, whatever the seed
+        for name in MEASURES:
+            for opt in ({'rvs_default': 'omit', 'crvs_default': 'omit', 'keep_crvs': False, 'base': 'linear'},
+                        {'rvs_default': 'none', 'crvs_default': False, 'keep_crvs': True, 'base': 'linear'},
+                        {'rvs_default': False, 'crvs_default': 'none', 'base': 'linear'},
+                        {'rvs_default': False, 'crvs_default': False, 'base': 0.5},
+                        {'rvs_default': 'omit', 'crvs_default': 'none', 'keep_crvs': False, 'base': rng.choice([2, 'e', 10, 3.5])}):
+                d = self.rand_case(rng)
+                while d['measure'] != name:
+                    d = self.rand_case(rng)
+                yield self.apply_options(rng, d, **opt)
+        # CAEKL in a base below 1 on the structured tables, where the candidates differ (max of the base-b numbers
+        # is the minimum of the information)
+        for _ in range(6 if tier == 'quick' else 200):
+            d = self.rand_case(rng)
+            while d['measure'] != 'caekl_mutual_information' or len(d['groups']) < 3:
+                d = self.rand_case(rng)
+            yield self.apply_options(rng, d, rvs_default=rng.choice([False, 'omit']), base=0.5)
+        for _ in range(120 if tier == 'quick' else 6000):
+            yield self.apply_options(rng, self.rand_case(rng))
+        # default grouping with the conditioning variables given by name (rv_mode 'names' / left out), every seed
+        for name in self.OVERLAP_OK:
+            for implicit in (True, False) * (1 if tier == 'quick' else 25):
+                d = self.rand_case(rng)
+                while d['measure'] != name:
+                    d = self.rand_case(rng)
+                d['names'] = rng.choice([list('XYZWV'), list('WZYXA')])[:d['n']]
+                d['byname'] = True
+                yield self.apply_options(rng, d, rvs_default=rng.choice(['omit', 'none']), crvs_default=False,
+                                         implicit=implicit, keep_crvs=True)
 
     def rand_shape(self, rng, n, name):
         vars_ = list(range(n))
@@ -213,8 +292,23 @@ class C05(object):
         name = case['measure']
         r.site = 'dit.multivariate.' + name
         groups, crvs, k = case['groups'], case['crvs'], case['k']
+        # arguments left out (cases of the plain stream and of the corpus pass everything explicitly)
+        rvs_default, crvs_default = case.get('rvs_default') or False, case.get('crvs_default') or False
+        # rv_mode may be left out only where the addressing is the distribution's own mode (names once names are set)
+        implicit = case.get('rvmode') == 'implicit' and (case['byname'] or not case.get('names'))
+        base = case.get('base', 'linear')
+        if rvs_default:
+            # documented meaning of rvs=None: every variable is a group of its own
+            groups = [[i] for i in range(case['n'])]
+            k = min(k, len(groups))
+        if crvs_default:
+            crvs = []      # documented meaning of crvs=None: nothing is conditioned on
+        # a table kept in base b yields base-b units: value * log2(b) is the amount in bits
+        unit = 1.0 if base == 'linear' else math.log2(gen.base_num(base))
         r.features = ['measure=%s' % name, 'n=%d' % case['n'], 'groups=%d' % len(groups), 'crvs=%d' % len(crvs),
-                      'byname=%s' % case['byname'], 'zeros=%s' % any(Fraction(p) == 0 for p in case['pmf'])]
+                      'byname=%s' % case['byname'], 'zeros=%s' % any(Fraction(p) == 0 for p in case['pmf']),
+                      'rvs=%s' % (rvs_default or 'given'), 'crvs=%s' % (crvs_default or 'given'),
+                      'rv_mode=%s' % ('left out' if implicit else 'given'), 'base=%s' % base]
         d = gen.build(case)
         names = case.get('names')
         f = get_func(dit, name)
@@ -222,11 +316,21 @@ class C05(object):
         def nm(idx):
             return [names[i] for i in idx] if case['byname'] else list(idx)
         kw = dict(rvs=[nm(g) for g in groups], crvs=nm(crvs), rv_mode='names' if case['byname'] else 'indices')
+        if rvs_default == 'omit':
+            del kw['rvs']
+        elif rvs_default:
+            kw['rvs'] = None
+        if crvs_default == 'omit':
+            del kw['crvs']
+        elif crvs_default:
+            kw['crvs'] = None
+        if implicit:
+            del kw['rv_mode']
         args = (k,) if name == 'cohesion' else ()
 
         # ---------------- numeric, real code
         try:
-            val = float(f(d, *args, **kw))
+            val = float(f(d, *args, **kw)) * unit
         except Exception as e:  # noqa
             r.oracle_fail = '%s raised %s: %s' % (name, type(e).__name__, str(e)[:150])
             return r
@@ -242,7 +346,7 @@ class C05(object):
         mcanon = [[(s, unq(c)) for c, s in comb] for comb in mcombs]
         for comb in mcanon:
             comb.sort(key=lambda t: t[0])
-        ftab = [[o, f2bits(gen.lin_of(v, 'linear'))] for o, v in zip([gen.from_py(o, case['klass']) for o in d.outcomes], d.pmf)]
+        ftab = [[o, f2bits(gen.lin_of(v, base))] for o, v in zip([gen.from_py(o, case['klass']) for o in d.outcomes], d.pmf)]
         mval = bits2f(drv.call('combf', [name, k, groups, crvs, ftab]))
         r.nontrivial = len(groups) >= 2 and max(len(c) for c in mcanon) >= 3
 
@@ -308,7 +412,7 @@ class C05(object):
             if p1 != p2:
                 d[o1], d[o2] = p2, p1
                 try:
-                    val2 = float(f(d, *args, **kw))
+                    val2 = float(f(d, *args, **kw)) * unit
                     ref2 = self.reference(name, groups, crvs, k, self.entropies(d, case))
                     if abs(val2 - ref2) > 1e-8:
                         fails = ('after swapping two probabilities in place, %s = %r but its defining combination gives %r'
